@@ -116,13 +116,14 @@ type iterState struct {
 	next func() (statedb.Change[*Obj], statedb.Revision, bool)
 	stop func()
 	// oracle state (C07)
-	replay      map[string]string // pk -> "val@rev"
-	lastRev     uint64
-	created     uint64 // table revision in the creating txn
-	complete    bool   // last sequence ran to completion
-	lastSnap    string // dump of the snapshot passed to the last refreshing Next
-	registered  bool   // the creating transaction has committed
-	caughtUpSeq int    // commitSeq at which a Next on a fresh snapshot last ran to completion (-1: never)
+	replay         map[string]string // pk -> "val@rev"
+	lastRev        uint64
+	created        uint64          // table revision in the creating txn
+	complete       bool            // last sequence ran to completion
+	lastSnap       string          // dump of the snapshot passed to the last refreshing Next
+	registered     bool            // the creating transaction has committed
+	caughtUpSeq    int             // commitSeq at which a Next on a fresh snapshot last ran to completion (-1: never)
+	liveAtCreation map[string]bool // primary keys live (in the creating transaction's view) when Changes() was called
 }
 
 // a retained watch channel of a query (C06 oracle)
@@ -445,7 +446,8 @@ func (e *eng) afterCommit() {
 			if !now[pk] {
 				w := map[int]bool{}
 				for iid, is := range e.iters {
-					if is.tab == tab && is.registered {
+					// registered before this transaction, or created in it while the object was still live
+					if is.tab == tab && (is.registered || is.liveAtCreation[pk]) {
 						w[iid] = true
 					}
 				}
@@ -865,7 +867,11 @@ func (e *eng) Op(f []string, line string, out *hx.Out) {
 		}
 		it, err := e.tabs[tab].Changes(e.wtxn)
 		if err == nil {
-			e.iters[iid] = &iterState{it: it, id: iid, tab: tab, caughtUpSeq: -1, replay: map[string]string{}, created: e.tabs[tab].Revision(e.wtxn)}
+			lac := map[string]bool{}
+			for o := range e.tabs[tab].All(e.wtxn) {
+				lac[string(o.ID)] = true
+			}
+			e.iters[iid] = &iterState{it: it, id: iid, tab: tab, caughtUpSeq: -1, liveAtCreation: lac, replay: map[string]string{}, created: e.tabs[tab].Revision(e.wtxn)}
 			// the iterator observes the objects existing at creation through its first Next
 		}
 		emit("M:C07,C08", "err=%s", errS(err))
@@ -962,6 +968,17 @@ func (e *eng) Op(f []string, line string, out *hx.Out) {
 		} else {
 			emit("M:C08", "0")
 		}
+	case "regdup":
+		// registering a table under a name that is taken is rejected with the documented error and must leave
+		// the database usable (no lock may stay held)
+		_, err := statedb.NewTable(e.db, "t0", idIndex)
+		res := "other"
+		if err != nil && strings.Contains(err.Error(), statedb.ErrDuplicateTable.Error()) {
+			res = "duplicate"
+		} else if err == nil {
+			res = "accepted"
+		}
+		emit("P:C10,C05", "err=%s", res)
 	case "reginit":
 		tab, name := atoi(f[1]), f[2]
 		if e.wtxn == nil {
